@@ -17,6 +17,7 @@ import Ymq.Lemmas.Stage2Algebra
 import Ymq.Lemmas.Stage2Ladders
 import Ymq.Lemmas.Stage2Exp
 import Ymq.Lemmas.Stage2ExpLarge
+import Ymq.Lemmas.Stage2Extract
 import Ymq.Lemmas.Params
 
 namespace Ymq.C16
@@ -304,15 +305,96 @@ theorem exp_modn_large_spec {M : Type*} [CommMonoid M] (g : M) (e : Nat) (he : e
     expModnLarge (· * ·) 1 g e = some (g ^ e) :=
   expModnLarge_eq g e he
 
-/-- `gcd_factors`/`find_factors`: for a sequence with increasing gcds (`G i ∣ G j` for `i ≤ j`, all
-positive) the returned list multiplies to `gcd_last / gcd_first`, every part is `> 1`, no
-debug assertion fails, and `facs.prod · rest = n`. -/
+/-- `gcd_factors`/`find_factors`: for a sequence with increasing gcds (`G i ∣ G j` for `i ≤ j`) the returned list
+multiplies to `gcd_last / gcd_first`, every part is `> 1`, no debug assertion fails, `facs.prod · rest = n`, and
+factors caught at different steps are not merged: every part is accepted by `pseudoprime` or is the increment
+`G (j+1) / G j` of one single step. -/
 theorem gcd_factors_prod (n : Nat) (vals : List Nat) (pp : Nat → Bool) (hn : 0 < n) (hne : vals ≠ [])
     (hchain : ∀ i j, i ≤ j → j < vals.length → Nat.gcd n (vals.getD i 0) ∣ Nat.gcd n (vals.getD j 0)) :
     ∃ facs rest, gcdFactors n vals pp = some (facs, rest) ∧
       facs.prod * Nat.gcd n (vals.getD 0 0) = Nat.gcd n (vals.getD (vals.length - 1) 0) ∧
-      facs.prod * rest = n ∧ ∀ f ∈ facs, 1 < f :=
+      facs.prod * rest = n ∧ (∀ f ∈ facs, 1 < f) ∧
+      ∀ f ∈ facs, pp f = true ∨ ∃ j, j + 1 < vals.length ∧
+        f * Nat.gcd n (vals.getD j 0) = Nat.gcd n (vals.getD (j + 1) 0) :=
   gcdFactors_spec n vals pp hn hne hchain
+
+/-- the precondition of `gcd_factors` holds for everything the stages pass to it: cumulative products -/
+theorem cumulative_products_chain (n : Nat) (v t : Nat → Nat) (h : ∀ i, v (i + 1) = v i * t i % n) :
+    ∀ i j, i ≤ j → Nat.gcd n (v i) ∣ Nat.gcd n (v j) :=
+  chain_of_cumulative n v t h
+
+/-- `check_gcd_factors` (P-1, P+1) keeps the invariant `factors.prod · nred = n`, every recorded factor `> 1`,
+`n` itself never recorded (the `fs.contains(n)` guard), and leaves a non-empty value list when the run continues. -/
+theorem check_gcd_factors_inv (n : Nat) (pp : Nat → Bool) (st : CgfState) (hinv : CgfInv n st) (hne : st.vals ≠ [])
+    (hchain : ∀ i j, i ≤ j → j < st.vals.length →
+      Nat.gcd st.nred (st.vals.getD i 0) ∣ Nat.gcd st.nred (st.vals.getD j 0)) :
+    ∃ b st', checkGcdFactors n pp st = some (b, st') ∧ CgfInv n st' ∧ (b = false → st'.vals ≠ []) :=
+  checkGcdFactors_inv n pp st hinv hne hchain
+
+/-- … so what `pm1_impl` / `pp1` return multiplies to `n` with all listed parts `> 1`, none equal to `n`. -/
+theorem pm1_result_proper {n : Nat} {st : CgfState} (hinv : CgfInv n st) {fs : List Nat} {rest : Nat}
+    (h : splitResult st = some (fs, rest)) :
+    fs.prod * rest = n ∧ (∀ f ∈ fs, 1 < f) ∧ 0 < rest ∧ n ∉ fs ∧ fs ≠ [] :=
+  splitResult_proper hinv h
+
+/-- shrinking the ring to `Z/nred` (`nred ∣ n`) is consistent and does not change any gcd -/
+theorem shrink_ring_consistent {n nred x : Nat} (h : nred ∣ n) :
+    x % n % nred = x % nred ∧ Nat.gcd nred (x % n % nred) = Nat.gcd nred x :=
+  shrink_ring h
+
+/-- `ecm::check_gcd_factor`: a returned value is a proper divisor (`ecm_curve` returns `(d, n/d)`). -/
+theorem check_gcd_factor_proper (n : Nat) (vals : List Nat) (pp : Nat → Bool) (hn : 0 < n) (hne : vals ≠ [])
+    (hchain : ∀ i j, i ≤ j → j < vals.length → Nat.gcd n (vals.getD i 0) ∣ Nat.gcd n (vals.getD j 0)) :
+    ∃ r, checkGcdFactor n vals pp = some r ∧ ∀ d, r = some d → d * (n / d) = n ∧ 1 < d ∧ d < n ∧ 1 < n / d :=
+  checkGcdFactor_proper n vals pp hn hne hchain
+
+/-- `rho_impl`: whatever it returns multiplies to `n`, parts `> 1`, cofactor strictly between 1 and `n`. -/
+theorem rho_impl_proper (n : Nat) (prods : List Nat) (pp : Nat → Bool) (hn : 0 < n) (hne : prods ≠ [])
+    (hchain : ∀ i j, i ≤ j → j < prods.length → Nat.gcd n (prods.getD i 0) ∣ Nat.gcd n (prods.getD j 0)) :
+    ∃ r, rhoImplResult n prods pp = some r ∧ ∀ fs rest, r = some (fs, rest) →
+      fs.prod * rest = n ∧ (∀ f ∈ fs, 1 < f) ∧ 1 < rest ∧ rest < n ∧ fs ≠ [] :=
+  rhoImplResult_proper n prods pp hn hne hchain
+
+/-- y-normalisation of `ecm_curve`: the two passes turn `y_k` into `y_k · ∏_{j≠k} z_j` (`ynSpec`), `z` untouched. -/
+theorem ynorm_spec {M : Type*} [CommMonoid M] (l : List (M × M)) : ynorm (· * ·) l = ynSpec 1 l :=
+  ynorm_eq_spec l
+
+/-- … and over `Z/p` (no `z ≡ 0`) two normalised `y`s differ by a multiple of `p` exactly when the affine `y/z`
+agree, i.e. (even coordinate, `ecm_hit`) when the points are equal up to sign modulo `p`. -/
+theorem ynorm_compare {F : Type*} [CommRing F] [IsDomain F] (l : List (F × F)) (hz : ∀ e ∈ l, e.2 ≠ 0)
+    (i k : Nat) (ei ek ei' ek' : F × F) (hi : l[i]? = some ei) (hk : l[k]? = some ek)
+    (hi' : (ynorm (· * ·) l)[i]? = some ei') (hk' : (ynorm (· * ·) l)[k]? = some ek') :
+    ei'.1 - ek'.1 = 0 ↔ ei.1 * ek.2 = ek.1 * ei.2 :=
+  Ymq.ExpModn.ynorm_compare l hz i k ei ek ei' ek' hi hk hi' hk'
+
+/-- `PM1Base::factor`, stage 1: a budget of at least 1024 applies every block of small prime powers. -/
+theorem pm1base_full_stage1 (nf budget : Nat) (h : Stage2Arms.pm1base.1 ≤ budget) :
+    pm1baseFmax Stage2Arms.pm1base nf budget = nf :=
+  pm1baseFmax_full nf budget h
+
+/-- `PM1Base::factor`, stage 2 (`pm1base_cover`): with budget ≥ 1001 the tested exponents are exactly the first
+`min(len, budget − 1000)` large primes, no index of `jumps` is out of range — for a table that starts at 503 and
+consists of odd increasing numbers at most 128 apart (hypothesis HLarges: true of the real table, request
+`s2_pm1base_data`; the table itself is C17's). -/
+theorem pm1base_cover (larges : List Nat) (budget : Nat) (hb : 1001 ≤ budget) (hne : larges ≠ [])
+    (hfirst : larges.head? = some 503) (hodd : ∀ p ∈ larges, p % 2 = 1)
+    (hch : List.IsChain (fun a b => a < b ∧ b - a ≤ 128) larges) :
+    pm1baseTested Stage2Arms.pm1base larges budget = some (larges.take (min larges.length (budget - 1000))) :=
+  pm1baseTested_spec larges budget hb hne hfirst hodd hch
+
+/-- `PM1Base::factor`: if `p − 1 ∣ E·l` for a tested exponent `l` then `p` divides the factor `2^(E·l) − 1` of the product. -/
+theorem pm1base_hit {p : Nat} (hp : p.Prime) (hp2 : p ≠ 2) {E l : Nat} (hE : p - 1 ∣ E * l) :
+    (p : ℤ) ∣ (2 : ℤ) ^ (E * l) - 1 := by
+  have := Fact.mk hp
+  rw [← ZMod.intCast_zmod_eq_zero_iff_dvd]
+  push_cast
+  have h2 : (2 : ZMod p) ≠ 0 := by
+    intro h
+    have : (p : ℤ) ∣ 2 := (ZMod.intCast_zmod_eq_zero_iff_dvd 2 p).mp (by exact_mod_cast h)
+    have hle : p ≤ 2 := Nat.le_of_dvd (by decide) (by exact_mod_cast this)
+    have := hp.two_le
+    omega
+  rw [pow_eq_one_of_dvd h2 hE, sub_self]
 
 /-- the guard `d > 1 && d < n` with `d = gcd(n, ·)`: a returned pair is a proper split -/
 theorem guard_proper {n x a b : Nat} (h : guard n (Nat.gcd n x) = some (a, b)) :
@@ -766,6 +848,14 @@ example : (2 ^ 70 + 5 < 2 ^ 1024) ∧ expModnLarge (· * ·) 1 (1 : ZMod 7) (2 ^
   exact ⟨h, by rw [exp_modn_large_spec _ _ h, one_pow]⟩
 example : chebV (3 : ZMod 7) 4 = 5 := by decide
 example : gcdFactors 1001 [1, 7, 7, 77, 1001] (fun _ => false) = some ([7, 11, 13], 1) := by decide
+example : CgfInv 1001 ⟨[7], 143, [2, 11, 11]⟩ ∧
+    checkGcdFactors 1001 (fun _ => true) ⟨[7], 143, [2, 11, 11]⟩ = some (true, ⟨[7, 11], 13, [2, 11, 11]⟩) := by
+  refine ⟨⟨by decide, by decide, by decide, by decide⟩, by decide⟩
+example : checkGcdFactor 1001 [1, 7, 7, 77] (fun _ => false) = some (some 11) := by decide
+example : rhoImplResult 1001 [1, 7, 77] (fun _ => false) = some (some ([7, 11], 13)) := by decide
+example : ynorm (· * ·) [((2 : ZMod 7), (3 : ZMod 7)), (4, 5), (6, 1)] = [(2 * 5 * 1, 3), (4 * 3 * 1, 5), (6 * 3 * 5, 1)] := by
+  decide
+example : pm1baseTested Stage2Arms.pm1base [503, 509, 521, 523] 1003 = some [503, 509, 521] := by decide
 example : guard 15 (Nat.gcd 15 9) = some (3, 5) := by decide
 example : ReportedLeEffective [(660, 66, 10)] ecmEff := by
   intro r hr; simp only [List.mem_singleton] at hr; subst hr; decide
